@@ -269,9 +269,17 @@ def disc_module(E):
             ref_discx[k] = "(%s) * 2 + %d" % (mx["a"], mx["r"])
         lines += D.print_variant(v, 0, with_strum=False, indent="    ")
     lines.append("}")
-    if mx:
-        lines = (["macro_rules! declare_%s {" % n.lower(), "    ($e0:expr) => {"] + ["        " + l for l in lines] +
-                 ["    };", "}", "declare_%s!(%s);" % (n.lower(), mx["a"])])
+    if mx or E.get("via_macro"):
+        # declared through a macro_rules! helper: the enum's name (and perhaps a discriminant fragment) come from the caller
+        lines = [l.replace("pub enum %s" % n, "pub enum $name", 1) if l.startswith("pub enum %s" % n) else l for l in lines]
+        params = ["$name:ident"] + (["$e0:expr"] if mx else [])
+        margs = [n] + ([mx["a"]] if mx else [])
+        lines = (["macro_rules! declare_%s {" % n.lower(), "    (%s) => {" % ", ".join(params)] + ["        " + l for l in lines] +
+                 ["    };", "}", "declare_%s!(%s);" % (n.lower(), ", ".join(margs))])
+    if E["dgen"] == "none" and E["id"] % 2 == 0:
+        lines.append("impl %s {" % n)
+        lines += ["    " + m for m in D.DECOYS["EnumDiscriminants"]]
+        lines.append("}")
     # reference enum for the layout clause: same repr lines, same discriminants, no fields
     lines += ["#[repr(%s)]" % r for r in E["reprs"]]
     lines.append("pub enum Ref%d {" % E["id"])
